@@ -5,5 +5,6 @@ int main(int argc, char **argv) {
     vf::opts o(argc, argv);
     vf::install_crash_handler();
     RUN("generator_programs", 2, true, scn::generator_programs(o, R, T, o.cases));
+    RUN("generator_string_values", 1, true, scn::generator_string_values(o, R, o.cases));
     return 0;
 }
